@@ -506,13 +506,14 @@ Fixpoint dataref_access (acc : list node) (ref : value) : M value :=
       | VUndef | VNull => if is_nullsafe a then ret VNull else fail e_nullref
       | VList _ l =>
           match oi with
-          | Some i => if (i =? -1)%Z then fail e_index else dataref_access rest (list_index l i)
+          | Some i => dataref_access rest (list_index l i)
           | None => fail e_index
           end
       | VMap _ m =>
-          match k with
-          | [] => fail e_key
-          | _ => dataref_access rest (map_key m k)
+          (* after repair C01-dataref-sentinels: "no key" is the presence of an index, not the key "" *)
+          match oi with
+          | None => dataref_access rest (map_key m k)
+          | Some _ => fail e_key
           end
       | _ => fail e_noncollection
       end
@@ -714,12 +715,15 @@ Definition walk_node (n : node) : M value :=
   | NSwitch _ v cases => sv <-- eval v ;;; switch_cases sv cases
   | NLetValue _ name e => v <-- eval e ;;; _ <-- m_set name v ;;; ret VUndef
   | NLetContent _ name body => s <-- render_block body ;;; _ <-- m_set name (VStr s) ;;; ret VUndef
-  | NCall _ name alldata dat params =>
+  | NCall p name alldata dat params =>
       match find_template (r_templates (c_reg cf)) name with
       | None => fail e_notemplate
       | Some callee =>
           cd <-- call_data alldata dat ;;;
           cd' <-- call_params params cd ;;;
+          (* evalCall: s.at(node) once the params are resolved -- a param's content block has moved
+             s.node into that block; a failure inside the callee is reported at this call *)
+          _ <-- modify (fun st => set_cur st p) ;;;
           call_enter callee cd'
       end
   | NTemplate _ _ body ae _ =>
